@@ -53,7 +53,12 @@ META = {
             "jsonLineBreakDetector.scan / LineBreak translated statement by statement (gen_detector_first_line_break: first line break outside strings "
             "for ALL byte strings; gen_detector_chunks / gen_detector_reads: independent of how the bytes are cut into reads), and as fact lists "
             "proved equal to the reviewed ones: the options that reach the csv/ltsv/fixedlen writers, ConvertFieldContents per value type, "
-            "EncodeEndingLineBreak, the attribute mapping of FileInfo.ExportOptions, every store of the five loaders into FileInfo, and from the go-text "
+            "EncodeEndingLineBreak, the attribute mapping of FileInfo.ExportOptions, every store of the five loaders into FileInfo, what the fixed-length "
+            "loader hands to the position detection and to the record reader as data-flow terms (auto_positions_use_whole_file: for EVERY file "
+            "fixedlen.NewDelimiter and fixedlen.NewReader get all of its bytes from the first one - not the 2048-byte head kept for the encoding "
+            "detection, a reader that was read before is rewound; detected_positions_never_reach_the_writer: over every store into the "
+            "delimiter positions of a FileInfo in lib/query, the flag stored next to it and the conditional override in FileInfo.ExportOptions - "
+            "positions the loader DETECTED make the writer measure again, positions the user sets are what the writer gets, F112), and from the go-text "
             "module the tree's go.mod pins: fixedlen Measure / GeneratePositions / the InsertSpace separator / addField's padding by alignment "
             "(gen_fixedlen_eq_ref). "
             "Models tied to /repo on every run: model-encode = real EncodeView bytes (CSV/TSV/LTSV/fixed/JSON compact+pretty/JSONL), model-decode = "
@@ -68,9 +73,8 @@ META = {
     "note": "trusted: Lean kernel (axioms propext, Classical.choice, Quot.sound only); harness + driver; golang.org/x/text transcoders and go-text "
             "encoding detection (enter as a parameter: the model sees the text after transcoding); strconv/time formatting inside ConvertFieldContents "
             "(cell texts of non-strings are taken from the implementation); unicode.IsLetter / IsSpace tables. "
-            "VERIF_C02_PENDING=1 switches on the generator cases of two defects of the unchanged tree that are reported but not yet repaired / recorded "
-            "(the session's colour flag reaches a pretty-printed JSON file: session_flag_changes_*; a JSON column name that is a prefix path of an "
-            "EARLIER column is written with a repeated key: c02.jspell, refuse_or_spell:*:conflicting_paths_written)",
+            "VERIF_C02_PENDING=1 switches on the generator cases of defects of the unchanged tree that are reported but not yet repaired / recorded "
+            "(none at present: F102, F103 and F112 are fixed and their cases run by default; VERIF_C02_PENDING=0 switches them off)",
     "technique": "Lean 4 machine-checked proof over a hand-written model of writer and reader + differential correspondence and direct write-then-read laws on the Go implementation",
 }
 
@@ -118,7 +122,13 @@ def run(run):
              "quotation marks, backslashes, CR, LF, CRLF: the whole text = model Json.firstBreak (op c02.jlb), and every two-way cut, byte-by-byte reads with "
              "empty reads, cuts after every CR / backslash / quotation mark and random cuts = the single read (law json_line_break_chunk_dependent), "
              "fixed-length texts read with AUTOMATIC positions (written with automatic positions, mutated, hand-laid-out word columns with mixed alignment, "
-             "character soup: positions of fixedlen.Delimiter.Delimit = model, loaded table = model), transcoding (random texts over all planes incl. U+FEFF / "
+             "character soup: positions of fixedlen.Delimiter.Delimit = model, loaded table = model; tables whose column population CHANGES along the "
+             "file - a column NULL in the first k records and filled after, filled first and NULL after, sparse after - in files of 2-27 KiB ending and "
+             "changing on both sides of 2048 / 4096 / 8192 / 12288 bytes (thorough: 65536), with and without header line, LF / CRLF: positions and loaded "
+             "table = the model's detection over the WHOLE text, and the write-then-read law with the failure attributed to "
+             "positions_not_detected_on_whole_file when go-text's detector on the whole written file finds positions that read it back, to the "
+             "heuristic (F16) otherwise; files laid out for and read with AUTOMATIC positions through UPDATE + COMMIT: still that layout, a longer "
+             "value is accepted - laws dialect:fixed:automatic_positions_*), transcoding (random texts over all planes incl. U+FEFF / "
              "U+FFFE / astral: bytes of text.Encode = model for UTF8, UTF8M, UTF16, UTF16BE/LE, UTF16BEM/LEM; text.Decode of the written bytes, of mutations "
              "and of byte soup with lone surrogates, BOMs, odd lengths, ill-formed UTF-8 = model; law transcode:<ENC>:roundtrip), JSON column names as "
              "paths (prefixes of one another, duplicates, escapes, empty segments: written bytes or refusal = model; lists of names, both orders of every "
